@@ -31,7 +31,7 @@ theorem ChansOk.delDc {chans dcs q rcq} (h : ChansOk chans dcs q rcq) (sid : Nat
   · exact h.dcKeys.sublist ((List.filter_sublist).map _)
 
 theorem WF.delDc {e : Ep} (h : WF e) (sid : Nat) : WF { e with dataChannels := dictDel e.dataChannels sid } :=
-  ⟨h.net, h.ch.delDc sid, h.tx, h.rx, h.rcReq, h.rcResp, h.sack⟩
+  ⟨h.net, h.ch.delDc sid, h.tx, h.rx, h.rcReq, h.rcResp, h.sack, h.nr⟩
 
 theorem dictDel_absent {β} {d : List (Nat × β)} {k : Nat} (h : dictGet d k = none) : dictDel d k = d := by
   unfold dictDel
@@ -118,17 +118,18 @@ theorem wp_dcReceive {A} {sid ppid : Nat} {data : Bytes} {Q : Unit → St → Pr
         · simp only [wp_bind, wp_setE]
           have hnone' : dictGet e.dataChannels sid = none := by
             cases hd : dictGet e.dataChannels sid <;> simp_all
-          refine wp_flush ⟨h.net, h.ch.open hnone' hs rfl _, h.tx, h.rx, h.rcReq, h.rcResp, h.sack⟩ ?_
+          refine wp_flush ⟨h.net, h.ch.open hnone' hs rfl _, h.tx, h.rx, h.rcReq, h.rcResp, h.sack, h.nr⟩ ?_
           intro e1 l1 hw1 hf1
           obtain ⟨cs, dcs, q, tx, _, _, _, _, rfl, hlen⟩ := hf1
           simp only [wp_getE]
           split
-          · simp only [wp_bind, wp_emit]
+          · simp only [wp_bind]
             have hi : e.chans.length < cs.length := by simp at hlen; omega
             obtain ⟨c, hc⟩ := getElem?_of_lt hi
             rw [wp_chanGet (c := c) (by simpa using hc)]
-            simp only [wp_chanSet]
-            refine hq _ _ (hw1.setChan (c := c) (by simpa using hc) ⟨rfl, rfl, rfl⟩) ?_
+            have hw2 := hw1.setChan (c := c) (c' := { c with silent := false }) (by simpa using hc) ⟨rfl, rfl, rfl⟩
+            simp only [wp_chanSet, wp_emit, wp_react_nil hw2.nr]
+            refine hq _ _ hw2 ?_
             exact ⟨_, dcs, q, tx, _, _, _, _, rfl, by simp; omega⟩
           · simp only [wp_pure]
             exact hq _ _ hw1 ⟨cs, dcs, q, tx, _, _, _, _, rfl, by simp at hlen; omega⟩
@@ -152,13 +153,13 @@ theorem wp_dcReceive {A} {sid ppid : Nat} {data : Bytes} {Q : Unit → St → Pr
       obtain ⟨c, hc⟩ := getElem?_of_lt hi
       simp only [wp_bind, wp_chanGet hc]
       repeat' split
-      all_goals first | simpa using hdone _ | (simp only [wp_emit]; exact hdone _)
+      all_goals first | simpa using hdone _ | (simp only [wp_bind, wp_emit, wp_react_nil h.nr]; exact hdone _)
 
 /-! ## delivery of reassembled messages -/
 
 theorem WF.rxFields {e : Ep} (h : WF e) (rwnd : Int) (ins : List (Nat × InStream)) :
     WF { e with rwnd := rwnd, inStreams := ins } :=
-  ⟨h.net, h.ch, h.tx, h.rx, h.rcReq, h.rcResp, h.sack⟩
+  ⟨h.net, h.ch, h.tx, h.rx, h.rcReq, h.rcResp, h.sack, h.nr⟩
 
 /-- Every fragment waiting for reassembly came from the wire: its stream id fits 16 bits. -/
 def SidOk (ins : List (Nat × InStream)) : Prop := ∀ p ∈ ins, ∀ c ∈ p.2.reasm, c.sid < 65536
@@ -236,7 +237,7 @@ theorem wp_getInStream {A} {sid : Nat} {k : Int} {Q : InStream → St → Prop} 
   simp [setInStream]
 
 theorem WF.setRx {e : Ep} (h : WF e) {r : Rx} (hr : RxR r) (b : Bool) : WF { e with rx := some r, sackNeeded := b } :=
-  ⟨h.net, h.ch, h.tx, ⟨by intro r' hr'; cases hr'; exact hr⟩, h.rcReq, h.rcResp, fun _ => rfl⟩
+  ⟨h.net, h.ch, h.tx, ⟨by intro r' hr'; cases hr'; exact hr⟩, h.rcReq, h.rcResp, fun _ => rfl, h.nr⟩
 
 theorem WF.rxR {e : Ep} (h : WF e) {r : Rx} (hr : e.rx = some r) : RxR r := h.rx.rng r hr
 
@@ -303,7 +304,7 @@ theorem dictGet_of_mem_nodup {β} {d : List (Nat × β)} (hn : (d.map (·.1)).No
       exact ih hn.2 hm
 
 theorem WF.sackTrue {e : Ep} (h : WF e) (hrx : e.rx.isSome = true) : WF { e with sackNeeded := true } :=
-  ⟨h.net, h.ch, h.tx, h.rx, h.rcReq, h.rcResp, fun _ => hrx⟩
+  ⟨h.net, h.ch, h.tx, h.rx, h.rcReq, h.rcResp, fun _ => hrx, h.nr⟩
 
 /-- `_receive_forward_tsn_chunk`. -/
 theorem wp_receiveForwardTsn {A} {cum : Int} {streams : List (Nat × Nat)} {Q : Unit → St → Prop} {e : Ep}
